@@ -1,11 +1,17 @@
 package main
 
-// Literal tables: maps built by MakeMap + MapUpdate with constant keys are tracked so that
-// `forall v in keys(m): P` expands to one ground instance per entry (DESIGN.md §6 C32).
+// Literal tables: a map created by MakeMap and filled by MapUpdate instructions with constant
+// keys in the same basic block is mirrored concretely in the generator, so that
+//   * `forall v in keys(m): P` expands to one ground instance per entry, and
+//   * `m[k]` / `has(m, k)` with a constant k are evaluated by the generator
+// (DESIGN.md §6 C32). The mirror is dropped as soon as anything could invalidate it: an update
+// from another block, an update through an unknown map value, a havoc of the map components.
 
 import (
 	"fmt"
 	"go/types"
+
+	"golang.org/x/tools/go/ssa"
 )
 
 type knownKey struct {
@@ -15,34 +21,89 @@ type knownKey struct {
 
 type mapKeyInfo struct {
 	keys    []knownKey
-	seen    map[string]bool
+	vals    map[string]Val
 	unknown bool
+	block   *ssa.BasicBlock // block of the MakeMap
+	typ     string
 }
 
-func (vc *VC) recordMapKey(mapID Term, k Val) {
+func (vc *VC) keyLabel(k Val) (string, bool) {
+	switch {
+	case k.K == KInt && k.C != nil:
+		return k.C.String(), true
+	case k.K == KStr && vc.strLitRev[k.S] != nil:
+		return fmt.Sprintf("%q", *vc.strLitRev[k.S]), true
+	}
+	return "", false
+}
+
+func (vc *VC) newMapMirror(mapID Term, t types.Type) {
 	if vc.mapKeys == nil {
 		vc.mapKeys = map[Term]*mapKeyInfo{}
 	}
+	vc.mapKeys[mapID] = &mapKeyInfo{vals: map[string]Val{}, block: vc.curBlock, typ: typeKey(t)}
+}
+
+// recordMapUpdate mirrors m[k] = v; an update the mirror cannot follow invalidates mirrors.
+func (vc *VC) recordMapUpdate(mapID Term, t types.Type, k Val, v Val) {
 	mi := vc.mapKeys[mapID]
 	if mi == nil {
-		mi = &mapKeyInfo{seen: map[string]bool{}}
-		vc.mapKeys[mapID] = mi
+		// update through a map value of unknown identity: it may alias any mirrored map of this type
+		vc.clobberMaps(typeKey(t))
+		return
 	}
-	label := ""
-	switch {
-	case k.K == KInt && k.C != nil:
-		label = k.C.String()
-	case k.K == KStr && vc.strLitRev[k.S] != nil:
-		label = fmt.Sprintf("%q", *vc.strLitRev[k.S])
-	default:
+	label, ok := vc.keyLabel(k)
+	if !ok || vc.curBlock != mi.block {
 		mi.unknown = true
 		return
 	}
-	if mi.seen[label] {
-		return
+	if _, seen := mi.vals[label]; !seen {
+		mi.keys = append(mi.keys, knownKey{v: k, label: label})
 	}
-	mi.seen[label] = true
-	mi.keys = append(mi.keys, knownKey{v: k, label: label})
+	mi.vals[label] = v
+}
+
+func (vc *VC) clobberMaps(typ string) {
+	for _, mi := range vc.mapKeys {
+		if typ == "" || mi.typ == typ {
+			mi.unknown = true
+		}
+	}
+}
+
+// mirror returns the concrete mirror of map value m if it is valid at the current block.
+func (vc *VC) mirror(m Val) *mapKeyInfo {
+	mi := vc.mapKeys[m.S]
+	if mi == nil || mi.unknown {
+		return nil
+	}
+	if vc.curBlock != nil && mi.block != nil && !vc.feasiblyDominates(mi.block, vc.curBlock) {
+		return nil
+	}
+	return mi
+}
+
+// feasiblyDominates: a dominates b once statically infeasible edges are ignored.
+func (vc *VC) feasiblyDominates(a, b *ssa.BasicBlock) bool {
+	for steps := 0; steps < 10000; steps++ {
+		if a == b || a.Dominates(b) {
+			return true
+		}
+		var only *ssa.BasicBlock
+		n := 0
+		for _, p := range b.Preds {
+			if vc.infeasible[edge{p.Index, b.Index}] {
+				continue
+			}
+			n++
+			only = p
+		}
+		if n != 1 {
+			return false
+		}
+		b = only
+	}
+	return false
 }
 
 // knownKeys resolves keys(m) to the statically known key set of the map m denotes.
@@ -54,11 +115,27 @@ func (e *Env) knownKeys(kc *ECall) []knownKey {
 	if m.K != KMap {
 		sfail("keys() of a non-map")
 	}
-	mi := e.vc.mapKeys[m.S]
-	if mi == nil || mi.unknown {
-		sfail("keys(): the key set of this map is not statically known (it must be built by a map literal with constant keys in this function)")
+	mi := e.vc.mirror(m)
+	if mi == nil {
+		sfail("keys(): the contents of this map are not statically known here (it must be built by a map literal with constant keys in this function)")
 	}
 	return mi.keys
+}
+
+// concreteLookup evaluates m[k] / has(m,k) on a mirrored map with a constant key.
+func (vc *VC) concreteLookup(m Val, k Val) (v Val, present bool, ok bool) {
+	mi := vc.mirror(m)
+	if mi == nil {
+		return Val{}, false, false
+	}
+	label, isConst := vc.keyLabel(k)
+	if !isConst {
+		return Val{}, false, false
+	}
+	if x, found := mi.vals[label]; found {
+		return x, true, true
+	}
+	return Val{}, false, true
 }
 
 // splitKeysQuantifier: an `ensures` of the form `forall v in keys(m): P` becomes one obligation per key.
@@ -81,5 +158,3 @@ func (vc *VC) splitKeysQuantifier(env *Env, x Expr) (labels []string, terms []Te
 	}
 	return labels, terms, true
 }
-
-var _ = types.Typ
